@@ -76,6 +76,8 @@ def run(ctx, build):
                 for i, lab in enumerate(labels):
                     if sizes[i] >= 5:
                         designed += [{lab: [0, 1, 4]}, {lab: [0, 3, 4]}]
+                    if sizes[i] >= 7:
+                        designed += [{lab: [0, 2, 3, 6]}, {lab: [0, 2, 5, 6]}]
                 for si in range(n_rand + len(designed)):
                     sort_dims = rng.random() < 0.2
                     with common.quiet():
